@@ -75,6 +75,25 @@ CLAIMED["C06"] = dict(
            "reject. Not decided: the mathematically exact value for every token, float parsing (core's str::parse)."),
     note=_NOTE, technique="static analysis: MIR arithmetic-discipline, literal-table extraction / agreement, option-wiring and guard-dominance rules")
 
+CLAIMED["C12"] = dict(
+    level=("Narrow static decision (TABLE agreement between reader and writer, extracted from the MIR of both and of the pinned "
+           "parser): every plain-token class to which the reader gives a non-string meaning — null, true/false, YAML 1.1 bools, "
+           "special floats, numeric prefixes / exponents / separators, the merge key, the parser's document indicators — is covered "
+           "by the writer's must-quote predicates, which both the key and the value emitters consult and whose `unsafe` answer "
+           "dominates every raw write; blank-at-either-end and leading-BOM guards are two-sided; the quoted emitters escape "
+           "backslash, quote and every control character (⊇ break set); block-scalar headers are written only behind a guard that "
+           "rejects every control character other than LF/TAB. Declared not applicable and NOT decided: round-trip identity of "
+           "strings / floats / integers / bytes, float text grammar, block-scalar indentation and chomping."),
+    note=_NOTE, technique="static analysis: literal-table / alphabet extraction from MIR (crate and dependency) and reader-writer agreement rules")
+CLAIMED["C20"] = dict(
+    level=("Static decision of the structural clauses: reserved wrapper names emitted by the wrappers' Serialize impls equal the names "
+           "intercepted by the emitter per serde method (with agreeing tuple arities); inline-comment text neutralises ⊇ the parser's "
+           "break set, is staged only outside flow context, cleared after the wrapped value on every non-error path and consumed "
+           "only by the end-of-scalar writer outside flow; block-scalar headers and folded bodies are written only by the guarded "
+           "emitter; the six wrappers' Deserialize impls hand the deserializer once, untouched, to the inner type and only wrap "
+           "the result. Not decided: layout-only effect of options and wrappers on arbitrary values."),
+    note=_NOTE, technique="static analysis: name-table agreement, sanitiser-alphabet inclusion, save/clear pairing and delegation-shape rules on MIR")
+
 NOT_APPLICABLE = {("C%02d" % i): _NB for i in range(1, 21) if ("C%02d" % i) not in CLAIMED}
 
 CLAIMED["C10"] = dict(
@@ -133,5 +152,24 @@ CLAIMED["C06"] = dict(
            "option and each switch is read only in its documented functions; base64 padding masks, length and pad-position checks "
            "reject. Not decided: the mathematically exact value for every token, float parsing (core's str::parse)."),
     note=_NOTE, technique="static analysis: MIR arithmetic-discipline, literal-table extraction / agreement, option-wiring and guard-dominance rules")
+
+CLAIMED["C12"] = dict(
+    level=("Narrow static decision (TABLE agreement between reader and writer, extracted from the MIR of both and of the pinned "
+           "parser): every plain-token class to which the reader gives a non-string meaning — null, true/false, YAML 1.1 bools, "
+           "special floats, numeric prefixes / exponents / separators, the merge key, the parser's document indicators — is covered "
+           "by the writer's must-quote predicates, which both the key and the value emitters consult and whose `unsafe` answer "
+           "dominates every raw write; blank-at-either-end and leading-BOM guards are two-sided; the quoted emitters escape "
+           "backslash, quote and every control character (⊇ break set); block-scalar headers are written only behind a guard that "
+           "rejects every control character other than LF/TAB. Declared not applicable and NOT decided: round-trip identity of "
+           "strings / floats / integers / bytes, float text grammar, block-scalar indentation and chomping."),
+    note=_NOTE, technique="static analysis: literal-table / alphabet extraction from MIR (crate and dependency) and reader-writer agreement rules")
+CLAIMED["C20"] = dict(
+    level=("Static decision of the structural clauses: reserved wrapper names emitted by the wrappers' Serialize impls equal the names "
+           "intercepted by the emitter per serde method (with agreeing tuple arities); inline-comment text neutralises ⊇ the parser's "
+           "break set, is staged only outside flow context, cleared after the wrapped value on every non-error path and consumed "
+           "only by the end-of-scalar writer outside flow; block-scalar headers and folded bodies are written only by the guarded "
+           "emitter; the six wrappers' Deserialize impls hand the deserializer once, untouched, to the inner type and only wrap "
+           "the result. Not decided: layout-only effect of options and wrappers on arbitrary values."),
+    note=_NOTE, technique="static analysis: name-table agreement, sanitiser-alphabet inclusion, save/clear pairing and delegation-shape rules on MIR")
 
 NOT_APPLICABLE = {("C%02d" % i): _NB for i in range(1, 21) if ("C%02d" % i) not in CLAIMED}
